@@ -56,6 +56,7 @@ type Opts struct {
 	WetTopsoil bool // explicit hydraulic parameters with field capacities of 50-62 vol % (light clays, mucks): the mean water
 	// content of the top 30 cm exceeds 0.5, where the oxygen factor of the denitrification model changes sign
 	WinterCrops bool // rotation of winter crops only (a crop stands on the field in mid winter)
+	PTF         int  // 1..4: hydraulic parameters from this pedotransfer function (texture fractions and a pore volume in the soil file)
 }
 
 func pick[T any](r *rand.Rand, xs []T) T { return xs[r.Intn(len(xs))] }
@@ -117,6 +118,7 @@ func Random(r *rand.Rand, name string, o Opts) *Project {
 	c.CropParamFmt = "txt"
 	c.TAnnual10 = between(r, 40, 140)
 	c.ETpot = pick(r, o.ETMethods)
+	c.PTF = o.PTF
 	c.CO2Method = between(r, 1, 3)
 	c.CO2Conc = between(r, 330, 600)
 	c.CO2Stomata = r.Intn(2)
@@ -188,6 +190,13 @@ func Random(r *rand.Rand, name string, o Opts) *Project {
 		}
 		if o.HighCorg {
 			h.Corg100 = between(r, 0, 600)
+		}
+		if o.PTF > 0 {
+			// sand / silt / clay with at least 5 % each, sand at most 85 %; pore volume not below any function's field capacity
+			h.Sand = between(r, 5, 85)
+			h.Clay = between(r, 5, 95-h.Sand-5)
+			h.Silt = 100 - h.Sand - h.Clay
+			h.PV = 80
 		}
 		if o.WetTopsoil {
 			h.FC = between(r, 50, 62)
